@@ -165,7 +165,17 @@ func (api *API) mapDecodeBasedOnType(ctx context.Context, mapVal any, value refl
 			return nil
 		}
 
-		return api.mapDecodeSlice(ctx, mapVal, sliceValue, sliceValueType, ts, opts)
+		// decode into an empty (addressable) slice and copy the elements into the array afterwards
+		decodedSliceValue := reflect.New(sliceValueType).Elem()
+		if err := api.mapDecodeSlice(ctx, mapVal, decodedSliceValue, sliceValueType, ts, opts); err != nil {
+			return err
+		}
+		if decodedSliceValue.Len() != value.Len() {
+			return ierrors.Errorf("can't fill array of length %d with %d decoded elements", value.Len(), decodedSliceValue.Len())
+		}
+		fillArrayFromSlice(value, decodedSliceValue)
+
+		return nil
 	case reflect.Interface:
 		return api.mapDecodeInterface(ctx, mapVal, value, valueType, ts, opts)
 	case reflect.String:
